@@ -24,8 +24,15 @@ POOL = [
     {'mm': False}, {'mm': True}, {'gr': False}, {'ma': False}, {'en': False}, {'co': False}, {'sp': False}, {'nl': False},
     {'cs': '##'}, {'fb': '$'}, {'ec': '@'}, {'al': 'ab'},
     {'im': True, 'md': '$', 'il': [('$', '!')]}, {'im': True, 'md': '|', 'il': [('|', '|')]},
+    # both lists changed in ONE call (a pair moves across the inline/display boundary; same concatenation)
+    {'il': [('$', '$')], 'dl': [('\\(', '\\)'), ('$$', '$$'), ('\\[', '\\]')]},
+    {'il': [('$', '$'), ('\\(', '\\)'), ('$$', '$$')], 'dl': [('\\[', '\\]')]},
+    {'il': [], 'dl': [('$', '$'), ('\\(', '\\)'), ('$$', '$$'), ('\\[', '\\]')]},
+    {'il': [('$', '$'), ('\\(', '\\)'), ('$$', '$$'), ('\\[', '\\]')], 'dl': []},
+    {'il': [('$$', '$$')], 'dl': [('$', '$')]},
+    {'gd': [('{', '}'), ('[', ']')], 'il': [('$', '$')], 'im': True, 'md': '$'},
 ]
-MATH_POOL = POOL[:16]
+MATH_POOL = POOL[:16] + POOL[-6:]
 ROOTS = [
     {'cx': True, 'sk': ['~', '\n\n', '``']},
     {'cx': True, 'sk': ['~'], 'im': True, 'md': '$'},
@@ -42,7 +49,19 @@ def cases(tier, rng):
     m = 1500 if tier == 'quick' else 30000
     for _ in range(m):
         root = rng.choice(ROOTS)
-        chain = [rng.choice(POOL) for _ in range(rng.randint(1, 4))]
+        chain = []
+        for _ in range(rng.randint(1, 4)):
+            kw = dict(rng.choice(POOL))
+            # several keywords in one call
+            for _ in range(rng.choice([0, 0, 1, 2])):
+                kw.update(rng.choice(POOL))
+            if rng.random() < 0.2:
+                # split the current default concatenation at a random point
+                allp = [('$', '$'), ('\\(', '\\)'), ('$$', '$$'), ('\\[', '\\]')]
+                rng.shuffle(allp) if rng.random() < 0.3 else None
+                k = rng.randint(0, 4)
+                kw.update({'il': allp[:k], 'dl': allp[k:]})
+            chain.append(kw)
         yield {'root': root, 'chain': chain}
 
 def enc_chain(chain):
